@@ -250,6 +250,11 @@ pub fn encoded_message(seq: u32, size: usize) -> Vec<u8> {
     serde_amqp::to_vec(&fe2o3_amqp::types::messaging::message::__private::Serializable(&m)).unwrap()
 }
 
+/// the body size for which call number `seq` encodes to exactly `target` bytes, if there is one
+pub fn size_for_encoded_len(seq: u32, target: usize) -> Option<usize> {
+    (1..target).find(|s| encoded_message(seq, *s).len() == target)
+}
+
 fn peer_open(max_frame: u32) -> Performative {
     Performative::Open(Open {
         container_id: "peer".into(),
@@ -927,11 +932,25 @@ pub fn oracle_tx(line: &str, trace: &str) -> Vec<String> {
     if !x.is_empty() {
         v.push(format!("c16-send-partial: frames of two deliveries interleave on the link: {}", x));
     }
+    let mms_limit: Option<usize> = field(&hw, "mms").parse().ok();
     for w in &wire {
         if w.status == "p" {
+            // whose message is it?  A message that does not exceed the peer's max-message-size is handed to the session in
+            // ONE piece: a partial delivery of such a message is not the recorded max-message-size defect
+            let owner = sends.iter().map(|s| encoded_message(s.seq, s.size)).find(|enc| enc.len() >= w.len && format!("{:016x}", fnv(&enc[..w.len])) == w.hash);
+            let unsplit = match (&owner, mms_limit) {
+                (Some(enc), Some(m)) => m == 0 || enc.len() <= m,
+                (Some(_), None) => true,
+                _ => false,
+            };
             v.push(format!(
-                "c16-send-partial: delivery id={} tag={} was begun ({} frame(s), {} bytes, more=true) and never finished",
-                w.did, w.tag, w.frames, w.len
+                "{}: delivery id={} tag={} was begun ({} frame(s), {} bytes, more=true) and never finished{}",
+                if unsplit { "c16-send-partial-unsplit" } else { "c16-send-partial" },
+                w.did,
+                w.tag,
+                w.frames,
+                w.len,
+                if unsplit { " although the message does not exceed the peer's max-message-size (it must be handed over in one piece)" } else { "" }
             ));
         }
     }
@@ -1519,7 +1538,7 @@ pub fn direct_oracle(line: &str, trace: &str) -> Vec<String> {
     if field(&ew, "close") == "pending" {
         v.into_iter()
             .map(|x| match x.split_once(':') {
-                Some((c, rest)) => format!("{}-wedged:{} [the engines are wedged: the final detach never reached the wire]", c.trim_end_matches("-after-partial"), rest),
+                Some((c, rest)) => format!("{}-wedged:{} [the engines are wedged: the final detach never reached the wire]", c.trim_end_matches("-after-partial").trim_end_matches("-unsplit"), rest),
                 None => x,
             })
             .collect()
@@ -1854,6 +1873,19 @@ pub fn run(seed: u64, n: u64, thorough: bool, corpus: &[String], dir: &str) {
             }
         }
     }
+    // a message that encodes to exactly the max-message-size (and one byte around it), its send dropped at each of its first
+    // polls while the link-to-session queue holds one frame, then a complete send on the same link
+    for mms in [100usize, 200] {
+        if let Some(sz) = size_for_encoded_len(1, mms) {
+            for size in [sz - 1, sz, sz + 1] {
+                for k in 1..=4 {
+                    out.count("mms_boundary_cases");
+                    one(&mut out, &format!("txc tx mfs=1024 cb=d sb=1 pipe=512 ssm=u mms={} cr=up:3 pause=- sd=0 | 10:inf ; {}:{} ; 100:inf", mms, size, k));
+                }
+                one(&mut out, &format!("txc tx mfs=1024 cb=d sb=d pipe=512 ssm=u mms={} cr=up:3 pause=- sd=0 | 10:inf ; {}:inf ; 100:inf", mms, size));
+            }
+        }
+    }
     // pre-settled sends on a mixed-mode link (and on the other two modes)
     for ssm in ["m", "u", "s"] {
         for cr in ["up:3", "win:1"] {
@@ -2070,6 +2102,22 @@ pub fn run_model(seed: u64, n: u64, thorough: bool, corpus: &[String], dir: &str
                         "txc tx mfs=1024 cb=d sb={} pipe=512 ssm=u mms={} cr=up:3 pause=- sd=0 | 10:inf ; {}:{} ; 100:inf",
                         sb, mms, size, k
                     ));
+                }
+            }
+        }
+    }
+    // the boundary of the max-message-size split: a message that encodes to exactly the limit (one transfer), one byte
+    // less and one byte more, dropped at every point, followed by a complete one
+    for mms in [100usize, 200] {
+        if let Some(sz) = size_for_encoded_len(1, mms) {
+            for sb in ["1", "2", "d"] {
+                for k in 1..=(if thorough { 12 } else { 6 }) {
+                    for size in [sz - 1, sz, sz + 1] {
+                        lines.push(format!(
+                            "txc tx mfs=1024 cb=d sb={} pipe=512 ssm=u mms={} cr=up:3 pause=- sd=0 | 10:inf ; {}:{} ; 100:inf",
+                            sb, mms, size, k
+                        ));
+                    }
                 }
             }
         }
